@@ -94,36 +94,58 @@ def slice_seq(it, seq, lo, hi):
     n = seq.length()
     a = _norm_bound(it, lo, n, Lin.const(0))
     b = _norm_bound(it, hi, n, n)
-    if not it.decide_ge0(b - a - 1):      # a >= b : empty
-        return SeqV(seq.kind, (), seq.tags)
+    if it.store.prove_ge0(a - b):           # a >= b : empty
+        return SeqV(seq.kind, (), seq.all_tags())
+    if not it.store.prove_ge0(b - a):
+        if not it.decide_ge0(b - a - 1):
+            return SeqV(seq.kind, (), seq.all_tags())
     return sub_seq(it, seq, a, b)
 
 
 def sub_seq(it, seq, a, b):
-    """positions a <= b inside [0, len]; returns descriptor of seq[a:b]."""
+    """positions 0 <= a <= b <= len; returns descriptor of seq[a:b] (pieces may be provably-possibly empty)."""
     out = []
     off = Lin.const(0)
-    for s in seq.segs:
+    st = it.store
+    nseg = len(seq.segs)
+    for i, s in enumerate(seq.segs):
         ln = s.length()
         end = off + ln
-        # does [a,b) intersect [off,end)?
-        if it.decide_ge0(a - end):          # a >= end -> before slice start
+        last = i == nseg - 1
+        # skip segments entirely before the slice
+        if st.prove_ge0(a - end) and not st.prove_ge0(end - a):
             off = end
             continue
-        if it.decide_ge0(off - b):          # off >= b -> past the slice
+        if not st.prove_ge0(end - a):
+            if it.decide_ge0(a - end):
+                off = end
+                continue
+        # stop at segments entirely after the slice
+        if st.prove_ge0(off - b) and i > 0:
             break
+        if not st.prove_ge0(b - off):
+            if it.decide_ge0(off - b):
+                break
         # start within seg
-        if it.decide_ge0(a - off):
+        if st.prove_ge0(a - off):
+            s_lo = a - off
+        elif st.prove_ge0(off - a):
+            s_lo = Lin.const(0)
+        elif it.decide_ge0(a - off):
             s_lo = a - off
         else:
             s_lo = Lin.const(0)
-        if it.decide_ge0(end - b):
+        if st.prove_ge0(end - b):
+            s_hi = b - off
+        elif st.prove_ge0(b - end):
+            s_hi = ln
+        elif it.decide_ge0(end - b):
             s_hi = b - off
         else:
             s_hi = ln
         out.append(_sub_seg(it, s, s_lo, s_hi, seq.kind))
         off = end
-    return normalise(it, seq.kind, out, seq.tags)
+    return normalise(it, seq.kind, out, seq.all_tags())
 
 
 def _sub_seg(it, s, lo, hi, kind):
